@@ -74,6 +74,7 @@ func runC07(c *Ctx) {
 	}
 	st := res.Underlying().(*types.Struct)
 	jsonTables(c, "lib.Result", res, "jsonResult", nil)
+	c09JSONDecoder(c) // round trip "for arbitrary bodies": lines of any length, copied, complete
 	csvEncFields, csvDecFields := c07CSV(c, res)
 	eqFields := equalFields(c, "Result.Equal", "r", "other")
 
